@@ -79,7 +79,7 @@ func runRace(e *env) {
 	}
 	plans := map[int]*plan{}
 	var order []int
-	var readers, flushers []*Step
+	var readers, flushers, adders []*Step
 	for i := range e.sc.Steps {
 		st := &e.sc.Steps[i]
 		switch st.T {
@@ -95,6 +95,8 @@ func runRace(e *env) {
 			readers = append(readers, st)
 		case "flusher":
 			flushers = append(flushers, st)
+		case "ni-adder":
+			adders = append(adders, st)
 		}
 	}
 	sort.Ints(order)
@@ -190,6 +192,18 @@ func runRace(e *env) {
 				ctx, cancel := context.WithTimeout(context.Background(), time.Minute)
 				e.net.Flush(ctx, flushReq(st.Flush))
 				cancel()
+			}
+		})
+	}
+	for _, st := range adders {
+		st := st
+		slot := n
+		n++
+		simrt.Go("race-ni-adder", func() {
+			defer func() { done[slot] = true }()
+			for i := 0; i < st.B; i++ {
+				simrt.Yield("adder-delay", st.A)
+				e.srv.AddNetworkInstance(fmt.Sprintf("LATE-%d", i))
 			}
 		})
 	}
